@@ -1,5 +1,6 @@
 import Ypv.Lemmas.EvalKw
 import Ypv.Props.C12
+import Ypv.Lemmas.Collector
 /-!
 # C15 — evaluation fails only with YAML Path errors
 
@@ -184,5 +185,101 @@ example : (required sampleMt Desc.none k1Doc [.index 1, .keyword false .hasChild
 /-- The comparison-model matcher decides a search without any oracle. -/
 example : (required (W1.mtCompare C12.noRegex W1.noOracle) Desc.none k1Doc [.search false .equals ['.'] ['a']]
     (.real (.seq none [.scalar none (.str ['a']), .scalar none (.int 1)], Ctx.root))).1.length = 1 := by decide +kernel
+
+
+/-! ## Collector segments (wave w3)
+
+`W3.requiredM` (`Model/Collector.lean`) evaluates COLLECTOR segments with the document as state.
+Collectors add exactly one source of crash outcomes, `_collector_subtraction` applied to a left
+operand that holds a HASH (flag `hashSub` of the state = decidable class of C09-F1): there
+`lhs.parentref in rhs` raises `TypeError` for a scalar `rhs`, `rhs.items()` raises `AttributeError`
+for any `rhs` that is no dict, and `del updated_coords[idx]….node[key]` raises `IndexError` /
+`KeyError` / `TypeError` when the recorded `(rem_idx, key)` pairs no longer fit `updated_coords`
+(kernel-checked witnesses below, all reproduced on the pinned code).  C15's quantifier limits
+collectors to operands selecting scalars, which lies inside `hashSub = false`.
+FULL STATEMENT (false for the pinned code): no crash outcome for every collector path. -/
+section Collectors
+open Ypv.W3
+variable {mt : Matcher} {dsc : Node → Desc}
+
+/-- **C15 for collector paths.**  Safe matcher and attribute evaluation, no `unique`/`distinct`
+segment at any nesting level (`okDeep`, class of C15-K1): a crash outcome of `_get_required_nodes`
+implies that a subtraction collector met a hash on its left — collectors add no crash outcome
+beyond that class; the parse of a nested collector text never crashes (C14). -/
+theorem collector_crash_only_hashSub (hmt : MtSafe mt) (hd : ∀ rt, DscSafe (dsc rt)) (fuel : Nat) (segs : List ESeg)
+    (hok : okDeep fuel segs = true) (r : CRes) (st : St) (e : Err)
+    (he : (requiredM mt dsc fuel segs r st).1.2 = some e) (hc : e.isCrash = true) :
+    (requiredM mt dsc fuel segs r st).2.hashSub = true :=
+  (requiredM_good hmt hd fuel segs hok r st).2 e he hc
+
+/-- … contrapositive: outside the class the evaluation ends with results or a YAML Path error. -/
+theorem collector_errors_are_ypath_partial (hmt : MtSafe mt) (hd : ∀ rt, DscSafe (dsc rt)) (fuel : Nat)
+    (segs : List ESeg) (hok : okDeep fuel segs = true) (r : CRes) (st : St)
+    (hf : (requiredM mt dsc fuel segs r st).2.hashSub = false) :
+    (requiredM mt dsc fuel segs r st).1.NoCrash := by
+  intro e he
+  cases hc : e.isCrash with
+  | false => rfl
+  | true => rw [collector_crash_only_hashSub hmt hd fuel segs hok r st e he hc] at hf; cases hf
+
+/-- The same for `get_nodes(mustexist=True)` with the matcher of the comparison model and attribute
+paths evaluated by the model itself: no hypothesis about `search_matches` left. -/
+theorem collector_queries_errors_are_ypath_compare (rx : Str → Str → Option Bool) (pa : Str → Except Err (List ESeg))
+    (hpa : ∀ a e, pa a = .error e → e.isCrash = false)
+    (hpk : ∀ a sg, pa a = .ok sg → ∀ s ∈ sg, s.grouping = false)
+    (fuel : Nat) (segs : List ESeg) (hok : okDeep fuel segs = true) (d : Node)
+    (hf : (getRequiredM (W1.mtCompare rx W1.noOracle) (fun rt => Desc.ofParser (W1.mtCompare rx W1.noOracle) rt pa)
+      fuel segs d).2.hashSub = false) :
+    (getRequiredM (W1.mtCompare rx W1.noOracle) (fun rt => Desc.ofParser (W1.mtCompare rx W1.noOracle) rt pa)
+      fuel segs d).1.NoCrash := by
+  have hmt := compare_matcher_safe_noOracle rx
+  have hd : ∀ rt, DscSafe (Desc.ofParser (W1.mtCompare rx W1.noOracle) rt pa) := fun rt =>
+    dscSafe_ofParser hmt pa hpa (fun a sg h s hs => W1.kwOk_of_not_grouping rt s (hpk a sg h s hs))
+  unfold getRequiredM at hf ⊢
+  split
+  · exact noCrash_nil
+  · rename_i hnull
+    simp only [hnull] at hf
+    refine noCrash_append (collector_errors_are_ypath_partial hmt hd fuel segs hok _ _ hf) ?_
+    split
+    · exact noCrash_fail rfl
+    · exact noCrash_nil
+
+/-- What `_collector_subtraction` raises in its comparison loop: only with a hash on the left, and then
+`TypeError` / `AttributeError` (or a fenced input). -/
+theorem subtraction_loop_outcomes (rem : List RemEl) (lhs : List CRes) :
+    (∀ l ∈ lhs, l.unwrap.isMap = false) → ∃ upd, subLoop rem lhs [] [] = .ok (upd, []) :=
+  subLoop_noMap rem lhs [] []
+
+end Collectors
+
+/-- Kernel-checked witnesses of the subtraction crash outcomes (each reproduced on the pinned code,
+`Processor._collector_subtraction`), all inside the class `hashSub`. -/
+def cMt : Matcher := fun _ _ _ => .ok true
+def cI (i : Int) : Node := .scalar none (.int i)
+def cM (es : List (Str × Node)) : Node := .map none (es.map (fun kv => (Key.str kv.1, kv.2)))
+/-- the outcome, the flag, the number of deletions made -/
+def cOut (q : Gen W3.CRes × W3.St) : Option Err × Bool × Nat := (q.1.2, q.2.hashSub, q.2.dels.length)
+/-- `(a)-(l[0])` over `{a: {x: 1}, l: [5]}`: `'a' in 5` → TypeError -/
+example : cOut (W3.queryM cMt (fun _ => Desc.none) "(a)-(l[0])".toList (cM [(['a'], cM [(['x'], cI 1)]), (['l'], .seq none [cI 5])]))
+    = (some (.crash .typeError), true, 0) := by decide +kernel
+/-- `(a)-(l)` over `{a: {x: 1}, l: ['x']}`: `'x'.items()` → AttributeError -/
+example : cOut (W3.queryM cMt (fun _ => Desc.none) "(a)-(l)".toList
+      (cM [(['a'], cM [(['x'], cI 1)]), (['l'], .seq none [.scalar none (.str ['x'])])]))
+    = (some (.crash .attributeError), true, 0) := by decide +kernel
+/-- `(h)-(l.x)` over `{h: {x: 1, y: 2}, l: [{x: 1}, {x: 1}]}`: the pair is recorded twice, the second `del` → KeyError
+(after the first one changed the document) -/
+example : cOut (W3.queryM cMt (fun _ => Desc.none) "(h)-(l.x)".toList
+      (cM [(['h'], cM [(['x'], cI 1), (['y'], cI 2)]), (['l'], .seq none [cM [(['x'], cI 1)], cM [(['x'], cI 1)]])]))
+    = (some (.crash .keyError), true, 1) := by decide +kernel
+/-- `(a)-(b.*)` over `{a: {x: 1, y: 2}, b: {a: 5, x: 1}}`: `a` is dropped (its key is in `{a: 5}`) but a deletion was
+recorded for its slot → IndexError -/
+example : cOut (W3.queryM cMt (fun _ => Desc.none) "(a)-(b.*)".toList
+      (cM [(['a'], cM [(['x'], cI 1), (['y'], cI 2)]), (['b'], cM [(['a'], cI 5), (['x'], cI 1)])]))
+    = (some (.crash .indexError), true, 0) := by decide +kernel
+/-- non-vacuity: a collector path with scalar operands is outside the class and `okDeep` holds for it -/
+example : W3.okDeep 12 [.collector "a.*".toList .none, .collector "a.x".toList .sub, .index 0] = true := by decide +kernel
+example : (W3.getRequiredM cMt (fun _ => Desc.none) 12 [.collector "a.*".toList .none, .collector "a.x".toList .sub, .index 0]
+    (cM [(['a'], cM [(['x'], cI 1), (['y'], cI 2)])])).2.hashSub = false := by decide +kernel
 
 end Ypv.C15
